@@ -392,12 +392,28 @@ def run_miri_hist(c, prop, n_hist, steps, targets=(None, 'i686-unknown-linux-gnu
             for (a, z), args, rc, out in ex.map(one, chunks):
                 done = re.findall(r'^HISTORY (\d+)', out, re.M)
                 stats['executions'] += len(done)
+                stats['histories_with_another_propertys_violation'] = stats.get('histories_with_another_propertys_violation', 0) + len(re.findall(r'^OTHER-PROPERTY-VIOLATION', out, re.M))
                 if rc != 0:
                     idx = int(done[-1]) if done else a
                     detail = miri_error_summary(out)
                     m = re.search(r'VIOLATION-DETAIL (.*)', out)
+                    own = False
                     if m:
                         detail = m.group(1)[:400]
+                        try:
+                            own = prop in json.loads(m.group(1)).get('props', [])
+                        except Exception:
+                            own = True
+                    elif 'OTHER-PROPERTY-VIOLATION' in out:
+                        own = False
+                    else:
+                        # an error raised by the interpreter itself (undefined behaviour, leak): that
+                        # is C03's subject (and C20's, which includes C03 in every configuration)
+                        own = prop in ('C03', 'C20')
+                    if not own:
+                        stats.setdefault('chunks_cut_short_by_another_propertys_violation', []).append(
+                            {'target': target or 'x86_64-unknown-linux-gnu', 'history': idx, 'what': detail[:200]})
+                        continue
                     os.makedirs(c.REPLAYS, exist_ok=True)
                     tname = target or 'x86_64'
                     path = os.path.join(c.REPLAYS, f'{prop}-mirisim-hist-{c.SEED}-{idx}-{tname}.json')
